@@ -18,7 +18,7 @@ _TIER = "quick"
 
 
 def budget_ms():
-    return 20000 if _TIER == "quick" else 120000
+    return 60000 if _TIER == "quick" else 300000
 
 
 def solve(ob, timeout_ms=None, second_solver=False):
